@@ -87,9 +87,10 @@ fn check_len(kind: Kind, v: i128) -> Result<usize, Violation> {
             ref_dec = grans::ints::uint7_decode(&buf[..n]).map(|(x, k)| (x as i128, k));
         }
     }
-    let bytes = vmc::hex(&buf[..n]);
+    let written_copy = buf;
+    let bytes = move || vmc::hex(&written_copy[..n]);
     if n != spec_len {
-        return Err(viol(kind, v, "encode", "length", spec_len, format!("{spec_len} bytes"), format!("{n} bytes: {bytes}")));
+        return Err(viol(kind, v, "encode", "length", spec_len, format!("{spec_len} bytes"), format!("{n} bytes: {}", bytes())));
     }
     if ref_dec != Some((v, n)) {
         return Err(viol(
@@ -99,7 +100,7 @@ fn check_len(kind: Kind, v: i128) -> Result<usize, Violation> {
             "value",
             spec_len,
             format!("reference decoder reads {v} from {n} bytes"),
-            format!("{ref_dec:?} from {bytes}"),
+            format!("{ref_dec:?} from {}", bytes()),
         ));
     }
     // noodles' reader: exact slice, then the same bytes followed by 0xff filler
@@ -113,13 +114,13 @@ fn check_len(kind: Kind, v: i128) -> Result<usize, Violation> {
         let consumed = end - rd.len();
         match got {
             Err(e) => {
-                return Err(viol(kind, v, "decode", &format!("err:{:?}", e.kind()), spec_len, format!("Ok({v})"), format!("{e} reading {bytes} ({what})")));
+                return Err(viol(kind, v, "decode", &format!("err:{:?}", e.kind()), spec_len, format!("Ok({v})"), format!("{e} reading {} ({what})", bytes())));
             }
             Ok(g) if g != v => {
-                return Err(viol(kind, v, "compare", "wrong-value", spec_len, format!("{v}"), format!("{g} from {bytes} ({what})")));
+                return Err(viol(kind, v, "compare", "wrong-value", spec_len, format!("{v}"), format!("{g} from {} ({what})", bytes())));
             }
             Ok(_) if consumed != n => {
-                return Err(viol(kind, v, "decode", "consumed", spec_len, format!("{n} bytes consumed"), format!("{consumed} consumed of {bytes} ({what})")));
+                return Err(viol(kind, v, "decode", "consumed", spec_len, format!("{n} bytes consumed"), format!("{consumed} consumed of {} ({what})", bytes())));
             }
             Ok(_) => {}
         }
